@@ -3,6 +3,8 @@ use crate::engine::{Prop, Tier};
 pub mod c02;
 pub mod c03;
 pub mod c04;
+pub mod c11;
+pub mod c12;
 pub mod c13;
 pub mod c14;
 pub mod c15;
@@ -14,8 +16,12 @@ pub mod c18;
 #[cfg(lucid_suggest_verif)]
 pub mod c19;
 pub mod c05;
+pub mod c06;
+pub mod c07;
+pub mod c08;
 pub mod c09;
 pub mod c10;
+pub mod c20;
 pub mod hl;
 pub mod returned;
 
@@ -24,9 +30,14 @@ pub fn make(id: &str, tier: Tier) -> Option<Box<dyn Prop>> {
         "C02" => Box::new(c02::C02::new(tier)),
         "C03" => Box::new(c03::C03::new(tier)),
         "C04" => Box::new(c04::C04::new(tier)),
+        "C11" => Box::new(c11::C11::new(tier)),
+        "C12" => Box::new(c12::C12::new(tier)),
         "C13" => Box::new(c13::C13::new(tier)),
         "C14" => Box::new(c14::C14::new(tier)),
         "C05" => Box::new(c05::C05::new(tier)),
+        "C06" => Box::new(c06::C06::new(tier)),
+        "C07" => Box::new(c07::C07::new(tier)),
+        "C08" => Box::new(c08::C08::new(tier)),
         "C09" => Box::new(c09::C09::new(tier)),
         "C15" => Box::new(c15::C15::new(tier)),
         #[cfg(lucid_suggest_verif)]
@@ -36,6 +47,7 @@ pub fn make(id: &str, tier: Tier) -> Option<Box<dyn Prop>> {
         "C18" => Box::new(c18::C18::new(tier)),
         #[cfg(lucid_suggest_verif)]
         "C19" => Box::new(c19::C19::new(tier)),
+        "C20" => Box::new(c20::C20::new(tier)),
         "C10" => Box::new(c10::C10::new(tier)),
         _ => return None,
     })
